@@ -1081,15 +1081,16 @@ def plan(ctx: Ctx) -> List[Dict[str, Any]]:
             dict(name="structure=4", actions=4, depth=3, fields=1, kinds=["param", "note"], blocks=ALL_BLOCKS, free=False,
                  sample=700),
             dict(name="styles-free<=2", actions=2, depth=1, fields=2, kinds=["param", "returns", "note"], blocks=["para"], free=True,
-                 sample=None),
+                 sample=1200),
             dict(name="history-fault<=3", actions=3, depth=1, fields=2, kinds=["param", "return", "note", "ivar"],
-                 blocks=["para", "list", "doctest", "poison"], free=False, sample=2500, hows=["assigned", "inherited", "direct"],
+                 blocks=["para", "list", "doctest", "poison"], free=False, sample=1500, hows=["assigned", "inherited", "direct"],
                  need="history-or-fault"),
             dict(name="version-directive<=3", actions=3, depth=1, fields=1, kinds=["param", "note"], blocks=["para", "list", "version"],
                  free=False, sample=1500, formats=["restructuredtext", "google", "numpy", "plaintext"], need="version"),
             dict(name="numpy-see-also<=3", actions=4, depth=1, fields=3, kinds=["seealso", "param"], blocks=["para"], free=False,
                  sample=None, forms=["plain", "nsee"], formats=["numpy"], need_form="nsee"),
-            dict(name="rst-consolidated<=3", actions=3, depth=2, fields=2, kinds=CONS_KINDS, blocks=["para", "list", "lit", "doctest"],
+            dict(name="rst-consolidated<=3", actions=3, depth=2, fields=2, kinds=["param", "keyword", "except", "ivar", "type"],
+                 blocks=["para", "list", "lit"],
                  free=False, sample=1200, forms=["plain", "cbullet", "cdef"], formats=["restructuredtext"]),
         ]
     return [
